@@ -47,10 +47,10 @@ var (
 	}
 	originsValidInsecure = []string{
 		"http://example.com", "http://*.example.com:8080", "connector://localhost.example", "http://10.0.0.1", "http://[2001:db8::1]",
-		"http://*.localhost.example", "http://app.localhost:8080", "http://a.b.localhost", "connector://x.localhost",
+		"http://*.localhost.example", "http://app.localhost:8080", "http://a.b.localhost", "connector://x.localhost", "http://localhost.:8080", "http://localhost.", "http://app.localhost.",
 	}
 	originsPSL = []string{"https://*.com", "https://*.co.uk:*", "https://*.com.", "https://*.github.io", "https://*.co.uk.:8080",
-		"http://*.localhost", "http://*.localhost:8080", "https://*.localhost",
+		"http://*.localhost", "http://*.localhost:8080", "https://*.localhost", "http://*.localhost.", "https://*.localhost.:8443",
 		"https://*.internal", "https://*.corp", "https://*.home", "https://*.lan:8443", "https://*.local", "https://*.test", "https://*.example", "https://*.invalid", "https://*.unlisted-tld-xyz"} // `localhost` is a public suffix by the list's default rule; the pattern side compares the base host with "localhost"
 	originsDefect = []string{
 		"null", "file:///x", "file://localhost", "https://résumé.com", "https://EXAMPLE.com", "https://Example.com",
@@ -67,7 +67,7 @@ var (
 		"https://xn--a.com", "https://[::1]", "https://127.0.0.1",
 	}
 	// hosts with ACE labels: acceptance is decided by the IDNA profile (oracle); well-formed, Bidi-violating, bogus
-	originsACE = []string{"https://xn--bcher-kva.example", "https://xn--4db.com", "https://xn--a-0hc.com", "https://xn--a-zhc.example.com:8443",
+	originsACE = []string{"https://xn--shop-.example.com", "https://*.xn--cdn-.example.com:*", "https://xn--bcher-kva.example", "https://xn--4db.com", "https://xn--a-0hc.com", "https://xn--a-zhc.example.com:8443",
 		"https://*.xn--a-0hc.com", "http://xn--a-0hc.com.:*", "https://1a.xn--4db", "https://xn--mgbh0fb.xn--4dbc", "https://*.xn--5dbqzzl.example.com",
 		"https://xn--f.com", "https://xn--.com", "https://xn--zca.example", "https://*.shop.xn--mgberp4a5d4ar:8443"}
 	methodsValid   = []string{"PUT", "DELETE", "PATCH", "put", "patch", "GET", "PURGE", "OPTIONS", "options", "Post", "QUERY", "delete"}
